@@ -198,6 +198,11 @@ def _translate_metadata_to_ds9(region, shape):
     if fill is not None:
         meta['fill'] = int(fill)
 
+    # DS9 binary properties are written as 0/1 (include=True/False
+    # would be rejected by the reader as an invalid value)
+    if 'include' in meta:
+        meta['include'] = int(bool(meta['include']))
+
     if 'text' in meta:
         meta['text'] = f'{{{meta["text"]}}}'
 
